@@ -1,3 +1,129 @@
-/- Property theorems for C10 (stub: not built yet). -/
+/-
+C10  Updating with new data is equivalent to having observed it, for every history.
+Theorems about the forecaster state machine (SkVerif/Model/Forecaster.lean, Series.lean), for
+ANY `Core` and both horizon mixins unless stated.  Only theorems + non-vacuity examples here.
+-/
+import SkVerif.Lemmas.Update
 namespace SkVerif.C10
+open SkVerif SkVerif.Fc
+
+/-- `combine_first` on sorted series: a later finite observation wins, a later NaN keeps the older
+value, labels present in only one of the two are kept -/
+theorem lookup_combineFirst (new old : Series) (l : Int)
+    (hn : Lem.SSorted new) (ho : Lem.SSorted old) :
+    Series.lookup (Series.combineFirst new old) l = Lem.merged new old l :=
+  Lem.lookup_combineFirst new old l hn ho
+
+/-- a history of updates (with or without refitting, succeeding or not) after a successful fit -/
+def updates (bs : List (Series × Bool)) : List Op := bs.map (fun b => Op.update b.1 b.2)
+
+/-- For every sequence of updates the forecaster remembers the union of all observations it was
+given, folded batch by batch with later values winning (see `lookup_combineFirst`), and stays
+fitted.  (An update that raises - e.g. refit without a stored horizon - has still merged its
+batch: see `update_half_applied_without_fh`.) -/
+theorem remembered_eq_union_later_wins (core : Core) (mode : FhMode) (s : FState)
+    (hfit : s.fitted = true) (bs : List (Series × Bool)) :
+    (run core mode s (updates bs)).1.y = bs.foldl (fun acc b => Series.combineFirst b.1 acc) s.y ∧
+    (run core mode s (updates bs)).1.fitted = true := by
+  induction bs generalizing s with
+  | nil => simp [updates, run, hfit]
+  | cons b bs ih =>
+    have h1 := Lem.update_y_fitted core mode s b.1 b.2 hfit
+    simp only [updates, List.map_cons, run, step, List.foldl_cons]
+    have := ih (update core mode s b.1 b.2).1 h1.2
+    simp only [updates] at this
+    rw [h1.1] at this
+    exact this
+
+/-- … and the remembered series stays sorted by time -/
+theorem remembered_sorted (core : Core) (mode : FhMode) (s : FState)
+    (hfit : s.fitted = true) (hs : Lem.SSorted s.y) (bs : List (Series × Bool)) :
+    Lem.SSorted (run core mode s (updates bs)).1.y := by
+  rw [(remembered_eq_union_later_wins core mode s hfit bs).1]
+  induction bs generalizing s with
+  | nil => exact hs
+  | cons b bs ih =>
+    simp only [List.foldl_cons]
+    have : ∀ (acc : Series), Lem.SSorted acc →
+        Lem.SSorted (bs.foldl (fun acc b => Series.combineFirst b.1 acc) acc) := by
+      intro acc hacc
+      exact ih { s with y := acc } hfit hacc
+    exact this _ (Lem.combineFirst_sorted b.1 s.y hs)
+
+/-- A forecaster that refits on update is, after `fit(y1, fh); update(y2)`, in exactly the state of
+a fresh forecaster fitted on `y2.combine_first(y1)` with the same horizon … -/
+theorem refit_update_equiv_fresh_fit (core : Core) (mode : FhMode) (s : FState) (y2 : Series) (f : FH.FH)
+    (hfit : s.fitted = true) (hfh : s.fh = some f)
+    (hdone : (update core mode s y2 true).2 = .done) :
+    (update core mode s y2 true).1 = (fitWith core mode {} (Series.combineFirst y2 s.y) (some f)).1 ∧
+    (fitWith core mode {} (Series.combineFirst y2 s.y) (some f)).2 = .done :=
+  Lem.refit_equiv core mode s y2 f hfit hfh hdone
+
+/-- … hence indistinguishable under every continuation of the history -/
+theorem refit_update_equiv_fresh_fit_continuation (core : Core) (mode : FhMode) (s : FState) (y2 : Series)
+    (f : FH.FH) (hfit : s.fitted = true) (hfh : s.fh = some f)
+    (hdone : (update core mode s y2 true).2 = .done) (ops : List Op) :
+    (run core mode (update core mode s y2 true).1 ops).2 =
+      (run core mode (fitWith core mode {} (Series.combineFirst y2 s.y) (some f)).1 ops).2 := by
+  rw [(refit_update_equiv_fresh_fit core mode s y2 f hfit hfh hdone).1]
+
+/-- with parameter updating disabled the fitted parameters (here: the resolved window length),
+the stored horizon and the fitted flag stay those of the last fit; only the remembered data
+and the cutoff move -/
+theorem no_param_update_keeps_params_moves_cutoff (core : Core) (mode : FhMode) (s : FState) (y : Series)
+    (o : Obs) (hfit : s.fitted = true) (hlast : y.getLast? = some o) :
+    (update core mode s y false).1 =
+      { s with y := Series.combineFirst y s.y, cutoff := some o.1 } ∧
+    (update core mode s y false).2 = .done := by
+  simp [update, hfit, hlast]
+
+/-- `update_predict` leaves the forecaster's own cutoff where it was before the call -/
+theorem update_predict_restores_cutoff (core : Core) (mode : FhMode) (s : FState) (y : Series)
+    (cv : Option CvSpec) (up : Bool) :
+    (updatePredict core mode s y cv up).1.cutoff = s.cutoff :=
+  Lem.updatePredict_cutoff core mode s y cv up
+
+/-- `update_predict` returns exactly the forecasts that the corresponding sequence of single
+updates and predicts returns: with `statesAfter'` = the states reached by feeding the training
+windows one after the other through `update`, the k-th forecast is `_predict(fh)` made in the k-th
+of those states at that state's cutoff, and the k-th recorded cutoff is that state's cutoff -/
+theorem update_predict_eq_iterated_single (core : Core) (mode : FhMode) (y : Series) (fh : FH.FH) (up : Bool)
+    (ws : List (List Int)) (st : FState) (preds : List Series) (cuts : List Int) (sEnd : FState)
+    (h : movingCutoff.go core mode y fh up ws st [] [] = (sEnd, .ok (preds, cuts))) :
+    cuts = (Lem.statesAfter' core mode y up st ws).filterMap (·.cutoff) ∧
+    preds.map some = (Lem.statesAfter' core mode y up st ws).map (Lem.predOf core fh) ∧
+    preds.length = ws.length := by
+  obtain ⟨preds', cuts', e1, e2, e3, e4, e5⟩ := Lem.movingGo_gen core mode y fh up ws st [] [] preds cuts sEnd h
+  simp only [List.nil_append] at e1 e2
+  subst e1; subst e2
+  exact ⟨e3, e4, e5⟩
+
+/-- a multi-step `update_predict` labels its columns by the cutoffs of those single steps -/
+theorem update_predict_labels_are_cutoffs (preds : List Series) (cuts cols : List Int)
+    (rows : List (Int × List ORat)) (h : formatMoving preds cuts = .frame cols rows) : cols = cuts := by
+  unfold formatMoving at h
+  cases preds with
+  | nil => simp at h
+  | cons p0 rest =>
+    simp only at h
+    split at h
+    · simp at h
+    · cases rest with
+      | nil => simp at h
+      | cons p1 r => simp only [Out.frame.injEq] at h; exact h.1.symm
+
+/-- observed behaviour (not demanded by the property): `update(update_params=True)` on a forecaster
+that never got a horizon raises ValueError AFTER having merged the batch and moved the cutoff -/
+theorem update_half_applied_without_fh (core : Core) (s : FState) (y : Series) (o : Obs)
+    (hfit : s.fitted = true) (hfh : s.fh = none) (hlast : y.getLast? = some o) :
+    update core .optional s y true =
+      ({ s with y := Series.combineFirst y s.y, cutoff := some o.1 }, .err .value) := by
+  simp [update, hfit, hfh, hlast]
+
+-- non-vacuity
+example : Lem.merged [(1, some 5), (2, none)] [(0, some 1), (1, some 2), (2, some 3)] 1 = some (some 5) := by decide
+example : Lem.merged [(1, some 5), (2, none)] [(0, some 1), (1, some 2), (2, some 3)] 2 = some (some 3) := by decide
+example : Series.combineFirst [(1, some 5), (2, none), (4, some 9)] [(0, some 1), (1, some 2), (2, some 3)] =
+    [(0, some 1), (1, some 5), (2, some 3), (4, some 9)] := by decide
+
 end SkVerif.C10
